@@ -27,7 +27,10 @@ TIMES = [0, 1, -1, 981173106123456789, 1700000000000000000, 1700000000123000000,
 # dyadic (.5 s, .25 s) so that the binary build's float64 seconds carry them exactly. Only used when TimeFieldFormat is not one of the
 # UnixNano-based formats (the statement restricts those to the UnixNano range).
 FAR_TIMES = [16725225600 * 10**9 + 500000000, -11676096000 * 10**9 + 250000000, -62135596800 * 10**9 + 500000000, 253402300799 * 10**9 + 500000000]
-DURS = [0, 1, -1, 999, 1000, 1500000, 1000000000, 3600000000000, -2500000000, 2**62]
+DURS = [0, 1, -1, 999, 1000, 1500000, 1000000000, 3600000000000, -2500000000, 2**62,
+        # durations whose float rendering is sensitive to HOW the quotient is computed: float64(d)/float64(unit) and whole + remainder/unit
+        # differ by one ulp (the first three under the unit ms, the last two under the unit s)
+        377633229, 63204542, 62784834, 8830124702, 2765187168]
 # addresses: 4-byte and 16-byte forms, v4-in-v6, unspecified, and lengths that are neither (String() has a form for those too)
 IPS = [b"\x7f\x00\x00\x01", bytes(range(16)), b"\x00" * 16, b"\xc0\xa8\x00\x01", b"\x00" * 10 + b"\xff\xff\x0a\x00\x00\x01", b"\x00" * 4, b"\xff" * 16,
        b"", b"\x01\x02\x03\x04\x05"]
